@@ -6,7 +6,7 @@ from .. import pw as P
 from .. import linops
 from .. import natives as NAT
 from .. import worlds as W
-from ..interp import Interp, Arr, Num, View, Const, Obj, Unsupported, Raised, NONE
+from ..interp import Interp, Arr, Num, View, Const, Obj, Unsupported, Raised, NONE, explore
 from ..model import AnalysisError
 
 DOMAIN = 'pyPRISM.core.Domain::Domain'
@@ -124,29 +124,46 @@ def rule_mutators(ctx, rule='R07.i'):
     n = 0
     for name, build, finfo in mutator_cases(ctx.prog):
         construct = '%s::%s' % (DOMAIN, name)
-        try:
+
+        def run(preset, build=build):
             ip = _new_ip(ctx.prog)
+            ip.preset = list(preset)
             dom, (L1, d1) = build(ip)
-            got = _state(ip, dom)
-            got_pub = _public(ip, dom)
+            w = {'got': _state(ip, dom), 'got_pub': _public(ip, dom)}
             twin = W.fresh_domain(ip, Num(L1), dr=Num(d1))
-            want = _state(ip, twin)
-            want_pub = _public(ip, twin)
+            w['want'] = _state(ip, twin)
+            w['want_pub'] = _public(ip, twin)
             # the transforms of the mutated Domain against those of the fresh one (whatever private attributes, instance
             # or class level, the coefficients are kept in)
-            got_beh = _behaviour(ip, dom)
-            want_beh = _behaviour(ip, twin)
+            w['got_beh'] = _behaviour(ip, dom)
+            w['want_beh'] = _behaviour(ip, twin)
+            return ip, w
+        try:
+            worlds = explore(run)
         except (Unsupported, Raised) as e:
             ctx.undecided(rule, construct, str(e), finfo.loc())
             continue
         n += 1
-        missing = [a for a in ('dr', 'dk', 'length', 'r', 'k') if a not in want_pub]
+        bad, missing = [], []
+        for dec, ip, w in worlds:
+            missing = [a for a in ('dr', 'dk', 'length', 'r', 'k') if a not in w['want_pub']]
+            if missing:
+                break
+            # a path on which the code found the new value equal to the old one (`if value == self._length: return`) is a
+            # path on which they ARE equal; a tolerance test (np.isclose) implies no such thing
+            eqs = P.equalities(dec)
+            for nm in ('got', 'got_pub', 'got_beh', 'want', 'want_pub', 'want_beh'):
+                w[nm] = {k_: P.subs(v_, eqs) for k_, v_ in w[nm].items()}
+            where = (' (on the path where %s)' % ', '.join('%s is %s' % (c.show(), b_) for c, b_, _ in dec)) if dec else ''
+            b0 = _compare_states(ip, w['got'], w['want'])
+            b0 += [b for b in _compare_states(ip, w['got_pub'], w['want_pub']) if b not in b0 and b.split(' ')[0] not in w['got']]
+            b0 += _compare_states(ip, w['got_beh'], w['want_beh'])
+            bad += [b + where for b in b0]
+            got_pub = w['got_pub']
+            want = w['want']
         if missing:
             ctx.undecided(rule, construct, 'fresh Domain lacks the documented attributes %s' % missing, finfo.loc())
             continue
-        bad = _compare_states(ip, got, want)
-        bad += [b for b in _compare_states(ip, got_pub, want_pub) if b not in bad and b.split(' ')[0] not in got]
-        bad += _compare_states(ip, got_beh, want_beh)
         if bad:
             ctx.violation(rule, construct, 'stale:' + ','.join(sorted(b.split(' ')[0] for b in bad)),
                           'after %s the Domain differs from a freshly constructed one with the same length and dr: %s'
@@ -166,8 +183,9 @@ def rule_two_domains(ctx, rule='R07.j'):
     cls = ctx.prog.cls(DOMAIN)
     m = cls.find_method('__init__')
     construct = DOMAIN + '::two-instances'
-    try:
+    def run(preset):
         ip = _new_ip(ctx.prog)
+        ip.preset = list(preset)
         L, d = _sym_int(ip, 'L'), ip.declare('dr')
         dom = W.fresh_domain(ip, Num(L), dr=Num(d))
         ref_ip = _new_ip(ctx.prog)
@@ -195,6 +213,11 @@ def rule_two_domains(ctx, rule='R07.j'):
             compare('the other Domain\'s %s was re-assigned' % sname)
             if bad:
                 break
+        return ip, bad
+    try:
+        bad = []
+        for dec, ip_, b_ in explore(run):
+            bad += b_
     except (Unsupported, Raised) as e:
         ctx.undecided(rule, construct, str(e), m.loc())
         return
@@ -290,6 +313,53 @@ def rule_prefactors(ctx, rule='R08.f'):
     else:
         ctx.holds('R08.t', DOMAIN, 'scipy dst type=2 (forward) and type=3 (backward), no norm=/axis= keywords',
                   nontrivial=False)
+
+
+def rule_integer_spacing(ctx, rule='R08.i'):
+    """the spacing may be given as a Python int (Domain(length=128, dr=1), Domain(length=256, dk=1)): r or k is then an
+    integer array, and every operation that keeps the dtype of its operand (np.reciprocal, //, in-place division, *_like
+    buffers) truncates.  Both transforms of such a Domain must be the transforms of the float-spaced Domain."""
+    cls = ctx.prog.cls(DOMAIN)
+    m = cls.find_method('__init__')
+    n = 0
+    for which in ('dr', 'dk'):
+        construct = '%s::__init__(length,%s:int)' % (DOMAIN, which)
+
+        def build(inty, which=which):
+            ip = _new_ip(ctx.prog)
+            L, d = _sym_int(ip, 'L'), ip.declare('d')
+            nl, nd = Num(L), Num(d)
+            nl.inty = True
+            nd.inty = inty
+            dom = W.fresh_domain(ip, nl, **{which: nd})
+            ip.declare('f', 'curve')
+            ip.declare('F', 'curve')
+            out = {}
+            for nm, sym in (('to_fourier', 'f'), ('to_real', 'F')):
+                res = ip.call(ip.find_method(dom, nm), [Arr(N.sym(sym), 'array', ip)], {})
+                out[nm] = ip.term_of(res)[0]
+            for nm in ('r', 'k'):
+                out[nm] = W.attr_term(ip, ip.get_attr(dom, nm, None))
+            return ip, out
+        try:
+            ipf, flt = build(False)
+            ipi, itg = build(True)
+        except (Unsupported, Raised) as e:
+            ctx.undecided(rule, construct, str(e), m.loc())
+            continue
+        n += 1
+        bad = []
+        for nm in sorted(flt):
+            if itg[nm] is None or flt[nm] is None or P.compare(itg[nm], flt[nm])[0]:
+                ev = [e_ for e_ in ipi.events if e_['kind'] == 'int-reciprocal']
+                bad.append('%s is %s for an integer %s but %s for a float one%s' % (
+                    nm, P.show(itg[nm])[:120], which, P.show(flt[nm])[:120],
+                    (' (np.reciprocal of an integer array at %s is the integer reciprocal)' % ev[0]['loc']) if ev else ''))
+        if bad:
+            ctx.violation(rule, construct, 'integer-spacing', '; '.join(bad[:2]), m.loc())
+        else:
+            ctx.holds(rule, construct, 'grids and both transforms are those of the float-spaced Domain', m.loc())
+    ctx.floor(rule, n, 2, 'integer-spacing constructions (dr, dk)')
 
 
 def rule_roundtrip(ctx, rule='R07.t'):
